@@ -21,7 +21,7 @@
     serialised unit ([ser]): name maps cut to their 100 largest counts, time
     sum replaced by the whole-microsecond average times the count. *)
 From Coq Require Import ZArith List Bool.
-From AGH Require Import Model.Stats Proofs.Stats Proofs.StatsExt Proofs.StatsTops.
+From AGH Require Import Model.Stats Proofs.Stats Proofs.StatsExt Proofs.StatsTops Proofs.StatsCut.
 From AGH Require Base.Conc Proofs.StatsConc.
 Import ListNotations.
 Local Open Scope Z_scope.
@@ -253,6 +253,19 @@ Theorem C09_avg_time_example :
   d_num d = 8 /\ d_avg d = 1500 /\ d_num_f d = 3.
 Proof. exact avg_time_premises. Qed.
 Print Assumptions C09_avg_time_example.
+
+(** The cut really cuts: among distinct pairs at most 100 are kept, and no top
+    list of any answer (any state) is longer than 100. *)
+Theorem C09_cut_length : forall m, NoDup m -> Z.of_nat (length (cut100 m)) <= max_top.
+Proof. exact cut100_length. Qed.
+Print Assumptions C09_cut_length.
+
+Theorem C09_top_lists_at_most_100 : forall s,
+  let d := get_data s in
+  Z.of_nat (length (d_top_dom d)) <= 100 /\ Z.of_nat (length (d_top_blk d)) <= 100 /\
+  Z.of_nat (length (d_top_cli d)) <= 100 /\ Z.of_nat (length (d_top_up d)) <= 100.
+Proof. exact top_lists_at_most_100. Qed.
+Print Assumptions C09_top_lists_at_most_100.
 
 (** The top lists are consistent with the totals in every reachable state (no
     assumption on the clock): the counts shown for queried and blocked
